@@ -23,6 +23,9 @@ import (
 	"github.com/oasisprotocol/oasis-core/go/common/crypto/hash"
 	"github.com/oasisprotocol/oasis-core/go/common/crypto/signature"
 	"github.com/oasisprotocol/oasis-core/go/common/node"
+	staking "github.com/oasisprotocol/oasis-core/go/staking/api"
+	registryState "github.com/oasisprotocol/oasis-core/go/consensus/cometbft/apps/registry/state"
+	"github.com/oasisprotocol/oasis-core/go/common/quantity"
 	"github.com/oasisprotocol/oasis-core/go/consensus/api/transaction"
 	abciAPI "github.com/oasisprotocol/oasis-core/go/consensus/cometbft/api"
 	roothashState "github.com/oasisprotocol/oasis-core/go/consensus/cometbft/apps/roothash/state"
@@ -39,6 +42,8 @@ import (
 	"verifharness/internal/prng"
 )
 
+const appMaxEvidenceAge = 3
+
 type appWorld struct {
 	seed    uint64
 	rng     *prng.R
@@ -54,6 +59,8 @@ type appWorld struct {
 	expire  uint64
 	outsider *muxdrv.Validator
 	local    map[string]uint64 // nonces used in the block being planned
+	slashAmt uint64             // equivocation penalty of the runtime (0 = the runtime does not slash)
+	lastEv   *roothash.Evidence // last submitted evidence (for duplicate submissions)
 }
 
 func (w *appWorld) descriptor() *registry.Runtime {
@@ -76,6 +83,12 @@ func (w *appWorld) descriptor() *registry.Runtime {
 		},
 		GovernanceModel: registry.GovernanceEntity,
 		Deployments:     []*registry.VersionInfo{{}},
+	}
+	if w.slashAmt > 0 {
+		rt.Staking.Slashing = map[staking.SlashReason]staking.Slash{
+			staking.SlashRuntimeEquivocation: {Amount: *quantity.NewFromUint64(w.slashAmt)},
+		}
+		rt.Staking.RewardSlashEquvocationRuntimePercent = 30
 	}
 	rt.Genesis.StateRoot.Empty()
 	return rt
@@ -182,14 +195,19 @@ func (w *appWorld) commit(blk *block.Block, sched signature.PublicKey, n *muxdrv
 type appTx struct {
 	raw  []byte
 	kind string
-	ec   *commitment.ExecutorCommitment // nil for non-commit transactions
-	node int
+	ecs      []*commitment.ExecutorCommitment // the commitments of an ExecutorCommit transaction
+	isCommit bool
+	ev       *roothash.Evidence // an Evidence transaction
+	node     int
 }
 
-func (w *appWorld) commitTx(signer *muxdrv.Validator, kind string, ec *commitment.ExecutorCommitment) appTx {
-	tx := roothash.NewExecutorCommitTx(w.nonce(signer.Node), muxdrv.Fee(0, 4*muxdrv.DefaultGas), w.rtID, []commitment.ExecutorCommitment{*ec})
-	i, _ := w.nodeOf(ec.NodeID)
-	return appTx{raw: muxdrv.Sign(signer.Node, tx), kind: kind, ec: ec, node: i}
+func (w *appWorld) commitTx(signer *muxdrv.Validator, kind string, ecs ...*commitment.ExecutorCommitment) appTx {
+	var cs []commitment.ExecutorCommitment
+	for _, e := range ecs {
+		cs = append(cs, *e)
+	}
+	tx := roothash.NewExecutorCommitTx(w.nonce(signer.Node), muxdrv.Fee(0, 8*muxdrv.DefaultGas), w.rtID, cs)
+	return appTx{raw: muxdrv.Sign(signer.Node, tx), kind: kind, ecs: ecs, isCommit: true, node: -1}
 }
 
 func (w *appWorld) registerNodes(expiration uint64) []appTx {
@@ -213,6 +231,7 @@ func newAppWorld(seed uint64) (*appWorld, error) {
 	if int(w.strag) >= int(w.group) {
 		w.strag = 0
 	}
+	w.slashAmt = []uint64{0, 100, 100, 5000}[r.Intn(4)]
 	w.expire = uint64(2 + r.Intn(3))
 	if r.Chance(20) {
 		w.expire = 1000
@@ -221,7 +240,7 @@ func newAppWorld(seed uint64) (*appWorld, error) {
 		Validators: 1, Accounts: 2, EpochInterval: int64(3 + r.Intn(3)), BypassStake: true, NoRewards: true, MaxTxSize: 16384,
 		Mutate: func(doc *genesis.Document) {
 			doc.RootHash.Parameters.DebugDoNotSuspendRuntimes = false
-			doc.RootHash.Parameters.MaxEvidenceAge = 20
+			doc.RootHash.Parameters.MaxEvidenceAge = appMaxEvidenceAge
 			doc.RootHash.Parameters.GasCosts = transaction.Costs{roothash.GasOpSubmitMsg: 1500, roothash.GasOpComputeCommit: 1800, roothash.GasOpEvidence: 1900}
 		},
 	})
@@ -410,7 +429,7 @@ func (w *appWorld) planBlock(b int, st *roothash.RuntimeState, epoch uint64) []a
 			n := w.nodes[r.Intn(len(w.nodes))]
 			txs = append(txs, w.commitTx(n, "commit to suspended/idle runtime", w.commit(st.LastBlock, n.Node.Public(), n, 0, commitment.FailureNone, 0, false)))
 		}
-		return txs
+		return append(txs, w.planEvidence(st, txs, w.nodes[0].Node.Public())...)
 	}
 	com := st.Committee
 	round := st.LastBlock.Header.Round + 1
@@ -534,7 +553,125 @@ func (w *appWorld) planBlock(b int, st *roothash.RuntimeState, epoch uint64) []a
 			txs = append(txs, w.commitTx(n, "worker commit before the scheduler", mk(n, 0, commitment.FailureNone)))
 		}
 	}
-	return txs
+	txs = w.bundle(txs, st, sched, workers)
+	return append(txs, w.planEvidence(st, txs, schedID)...)
+}
+
+// planEvidence sometimes adds an equivocation-evidence transaction (never together with node
+// registrations, so that "the accused key is a registered node" is the same before and after
+// the block's transactions).
+func (w *appWorld) planEvidence(st *roothash.RuntimeState, txs []appTx, schedID signature.PublicKey) []appTx {
+	r := w.rng
+	for _, t := range txs {
+		if !t.isCommit {
+			return nil
+		}
+	}
+	if !r.Chance(14) {
+		return nil
+	}
+	var ev *roothash.Evidence
+	kind := "evidence"
+	if w.lastEv != nil && r.Chance(25) {
+		ev, kind = w.lastEv, "evidence resubmitted"
+	} else {
+		// an older block of the same chain: rounds back in time share LastBlock's fields we need
+		back := uint64([]int{0, 0, 0, 1, 2, 5, 8}[r.Intn(7)])
+		base := *st.LastBlock
+		if base.Header.Round >= back {
+			base.Header.Round -= back
+		}
+		n := w.nodes[r.Intn(len(w.nodes))]
+		a := w.commit(&base, schedID, n, 10, commitment.FailureNone, 0, false)
+		b := w.commit(&base, schedID, n, 11, commitment.FailureNone, 0, false)
+		switch r.Intn(8) {
+		case 0:
+			b = a
+			kind = "evidence with equal commitments"
+		case 1:
+			a = w.commit(&base, schedID, w.outsider, 10, commitment.FailureNone, 0, false)
+			b = w.commit(&base, schedID, w.outsider, 11, commitment.FailureNone, 0, false)
+			kind = "evidence against an unregistered key"
+		case 2:
+			b = w.commit(&base, schedID, n, 0, commitment.FailureUnknown, 0, false)
+			kind = "evidence: result versus failure"
+		case 3:
+			b.Signature[2] ^= 1
+			kind = "evidence with a bad signature"
+		}
+		if r.Chance(20) {
+			pa := buildProposal(&PropDesc{Node: 0, Round: base.Header.Round + 1, Batch: 0}, func(int) signature.Signer { return n.Node.Signer }, w.rtID)
+			pb := buildProposal(&PropDesc{Node: 0, Round: base.Header.Round + 1, Batch: 1}, func(int) signature.Signer { return n.Node.Signer }, w.rtID)
+			ev = &roothash.Evidence{ID: w.rtID, EquivocationProposal: &roothash.EquivocationProposalEvidence{ProposalA: *pa, ProposalB: *pb}}
+			kind = "proposal evidence"
+		} else {
+			ev = &roothash.Evidence{ID: w.rtID, EquivocationExecutor: &roothash.EquivocationExecutorEvidence{CommitA: *a, CommitB: *b}}
+		}
+		w.lastEv = ev
+	}
+	k := w.g.Accounts[0].Key
+	tx := roothash.NewEvidenceTx(w.nonce(k), muxdrv.Fee(0, 4*muxdrv.DefaultGas), ev)
+	return []appTx{{raw: muxdrv.Sign(k, tx), kind: kind, ev: ev, node: -1}}
+}
+
+func (w *appWorld) evidenceStored(round uint64, h hash.Hash) bool {
+	defer func() { _ = recover() }()
+	ctx := context.Background()
+	ist, err := abciAPI.NewImmutableStateAt(ctx, w.rep.Srv.State(), 0)
+	if err != nil {
+		return false
+	}
+	defer ist.Close()
+	ok, _ := roothashState.NewImmutableState(ist).EvidenceHashExists(ctx, w.rtID, round, h)
+	return ok
+}
+
+func (w *appWorld) isRegisteredNode(pk signature.PublicKey) bool {
+	defer func() { _ = recover() }()
+	ctx := context.Background()
+	ist, err := abciAPI.NewImmutableStateAt(ctx, w.rep.Srv.State(), 0)
+	if err != nil {
+		return false
+	}
+	defer ist.Close()
+	n, err := registryState.NewImmutableState(ist).Node(ctx, pk)
+	return err == nil && n != nil
+}
+
+// bundle sometimes merges the commitments planned for this block into ONE multi-commit
+// transaction (all-or-nothing), possibly poisoned by a commitment that must be rejected, or
+// sends an empty ExecutorCommit transaction.
+func (w *appWorld) bundle(txs []appTx, st *roothash.RuntimeState, sched *muxdrv.Validator, workers []*muxdrv.Validator) []appTx {
+	r := w.rng
+	if r.Chance(5) {
+		w.local = map[string]uint64{}
+		return []appTx{w.commitTx(workers[0], "empty commit transaction")}
+	}
+	var commits []*commitment.ExecutorCommitment
+	var other []appTx
+	for _, t := range txs {
+		if t.isCommit {
+			commits = append(commits, t.ecs...)
+		} else {
+			other = append(other, t)
+		}
+	}
+	if len(commits) < 2 || !r.Chance(35) || len(other) > 0 {
+		return txs
+	}
+	kind := "bundle of commitments"
+	switch r.Intn(4) {
+	case 0: // a duplicate at the end: the whole transaction must fail
+		commits = append(commits, commits[0])
+		kind = "bundle poisoned by a duplicate"
+	case 1: // a commitment on a wrong parent in the middle
+		n := workers[r.Intn(len(workers))]
+		bad := w.commit(st.LastBlock, sched.Node.Public(), n, 0, commitment.FailureNone, 0, true)
+		commits = append(commits[:1], append([]*commitment.ExecutorCommitment{bad}, commits[1:]...)...)
+		kind = "bundle poisoned by a wrong parent"
+	}
+	w.local = map[string]uint64{}
+	return []appTx{w.commitTx(workers[r.Intn(len(workers))], kind, commits...)}
 }
 
 func runAppHistory(seed uint64, nblocks int) (res appResult) {
@@ -558,6 +695,8 @@ func runAppHistory(seed uint64, nblocks int) (res appResult) {
 	roots := map[int]int{}     // vote -> state root
 	var blocks []string
 	var obs []string
+	evAccepted := map[hash.Hash]bool{} // evidence store keys accepted so far
+	var obsEv []string
 	var ledger []ledgerEntry // accepted commitments of the current round
 	ledgerRound := uint64(0)
 	discRound := false
@@ -611,36 +750,126 @@ func runAppHistory(seed uint64, nblocks int) (res appResult) {
 		}
 		var vcs, codes []string
 		for i, t := range txs {
-			if t.ec == nil {
+			if !t.isCommit {
 				continue
 			}
-			si, _ := w.nodeOf(t.ec.Header.SchedulerID)
-			if si < 0 {
-				si = 99
+			var one []string
+			for _, ec := range t.ecs {
+				ni, _ := w.nodeOf(ec.NodeID)
+				si, _ := w.nodeOf(ec.Header.SchedulerID)
+				if si < 0 {
+					si = 99
+				}
+				one = append(one, vcTerm(ec, ni, si, w.rtID, in))
+				if ec.Header.Header.StateRoot != nil {
+					roots[in.id(ec.ToVote())] = in.id(*ec.Header.Header.StateRoot)
+				}
 			}
-			vcs = append(vcs, vcTerm(t.ec, t.node, si, w.rtID, in))
-			if t.ec.Header.Header.StateRoot != nil {
-				roots[in.id(t.ec.ToVote())] = in.id(*t.ec.Header.Header.StateRoot)
-			}
+			vcs = append(vcs, coqout.List(one))
 			code, name := txCode(bres.TxResults[i])
 			codes = append(codes, fmt.Sprint(code))
 			res.stats["commit-tx:"+name]++
 			res.stats["commit-kind:"+t.kind]++
-			if code == 0 {
-				if ledgerRound != t.ec.Header.Header.Round {
-					ledger, ledgerRound, discRound = nil, t.ec.Header.Header.Round, false
+			res.stats[fmt.Sprintf("commits-per-tx:%d", len(t.ecs))]++
+			if code != 0 {
+				continue
+			}
+			for _, ec := range t.ecs {
+				ni, _ := w.nodeOf(ec.NodeID)
+				si, _ := w.nodeOf(ec.Header.SchedulerID)
+				if ledgerRound != ec.Header.Header.Round {
+					ledger, ledgerRound, discRound = nil, ec.Header.Header.Round, false
 				}
-				ledger = append(ledger, ledgerEntry{accepted{t.node, si, t.ec.IsIndicatingFailure(), t.ec.ToVote()}, hash.Hash{}})
-				if t.ec.Header.Header.StateRoot != nil {
-					ledger[len(ledger)-1].stateRoot = *t.ec.Header.Header.StateRoot
+				ledger = append(ledger, ledgerEntry{accepted{ni, si, ec.IsIndicatingFailure(), ec.ToVote()}, hash.Hash{}})
+				if ec.Header.Header.StateRoot != nil {
+					ledger[len(ledger)-1].stateRoot = *ec.Header.Header.StateRoot
 				}
 				// oracle: what an accepted commitment must look like
-				if pre == nil || t.ec.Header.Header.Round != w.roundAtTx(pre, bRounds)+1 {
-					violate(fmt.Sprintf("block %d: accepted a commitment whose header round %d is not the latest round + 1", b, t.ec.Header.Header.Round))
+				if pre == nil || ec.Header.Header.Round != w.roundAtTx(pre, bRounds)+1 {
+					violate(fmt.Sprintf("block %d: accepted a commitment whose header round %d is not the latest round + 1", b, ec.Header.Header.Round))
 				}
 			}
 		}
-		blocks = append(blocks, fmt.Sprintf("mkAB %d %s %s", H, epoch, coqout.List(vcs)))
+		var evTs, evCodes []string
+		for i, t := range txs {
+			if t.ev == nil {
+				continue
+			}
+			var coq string
+			var accused signature.PublicKey
+			var evRound uint64
+			if x := t.ev.EquivocationExecutor; x != nil {
+				ai, _ := w.nodeOf(x.CommitA.NodeID)
+				bi, _ := w.nodeOf(x.CommitB.NodeID)
+				sa, _ := w.nodeOf(x.CommitA.Header.SchedulerID)
+				sb, _ := w.nodeOf(x.CommitB.Header.SchedulerID)
+				coq = fmt.Sprintf("EExec %s %s", evTerm(&x.CommitA, ai, sa, w.rtID, in), evTerm(&x.CommitB, bi, sb, w.rtID, in))
+				accused, evRound = x.CommitA.NodeID, x.CommitA.Header.Header.Round
+			} else {
+				x := t.ev.EquivocationProposal
+				ai, _ := w.nodeOf(x.ProposalA.NodeID)
+				bi, _ := w.nodeOf(x.ProposalB.NodeID)
+				coq = fmt.Sprintf("EProp %s %s", propTerm(&x.ProposalA, ai, w.rtID, in), propTerm(&x.ProposalB, bi, w.rtID, in))
+				accused, evRound = x.ProposalA.NodeID, x.ProposalA.Header.Round
+			}
+			evHash, _ := t.ev.Hash()
+			var rb [8]byte
+			for k := 0; k < 8; k++ {
+				rb[k] = byte(evRound >> (8 * k))
+			}
+			storeKey := hash.NewFromBytes(rb[:], evHash[:])
+			registered := w.isRegisteredNode(accused)
+			evTs = append(evTs, fmt.Sprintf("mkET (%s) %d %s", coq, in.id(storeKey), coqout.Bool(registered)))
+			tr := bres.TxResults[i]
+			code, name := 99, fmt.Sprintf("other:%s/%d:%s", tr.Codespace, tr.Code, tr.Log)
+			switch {
+			case tr.Code == 0:
+				code, name = 0, "accepted"
+			case tr.Codespace == "roothash" && tr.Code == 10:
+				code, name = 40, "invalid-evidence"
+			case tr.Codespace == "roothash" && tr.Code == 8:
+				code, name = 41, "runtime-does-not-slash"
+			case tr.Codespace == "roothash" && tr.Code == 9:
+				code, name = 42, "duplicate-evidence"
+			case tr.Codespace == "roothash" && tr.Code == 5:
+				code, name = 30, "runtime-suspended"
+			case tr.Codespace == "roothash" && tr.Code == 6:
+				code, name = 31, "no-committee"
+			case tr.Codespace == "roothash" && tr.Code == 4:
+				code, name = 32, "no-executor-pool"
+			}
+			evCodes = append(evCodes, fmt.Sprint(code))
+			res.stats["evidence-tx:"+name]++
+			res.stats["evidence-kind:"+t.kind]++
+			// ---- oracle S ----
+			stored := w.evidenceStored(evRound, evHash)
+			if code == 0 {
+				res.nontriv = true
+				if evAccepted[storeKey] {
+					violate(fmt.Sprintf("block %d: evidence for the same node and round accepted twice", b))
+				}
+				evAccepted[storeKey] = true
+				if !stored {
+					violate(fmt.Sprintf("block %d: accepted evidence was not recorded", b))
+				}
+				if !registered {
+					violate(fmt.Sprintf("block %d: evidence against a key that is not a registered node was accepted", b))
+				}
+				if x := t.ev.EquivocationExecutor; x != nil {
+					ha, hb := x.CommitA.Header.Header.EncodedHash(), x.CommitB.Header.Header.EncodedHash()
+					if !x.CommitA.NodeID.Equal(x.CommitB.NodeID) || x.CommitA.Header.Header.Round != x.CommitB.Header.Header.Round ||
+						x.CommitA.Header.SchedulerID != x.CommitB.Header.SchedulerID ||
+						x.CommitA.Verify(w.rtID) != nil || x.CommitB.Verify(w.rtID) != nil ||
+						(ha.Equal(&hb) && x.CommitA.Header.Failure == x.CommitB.Header.Failure) {
+						violate(fmt.Sprintf("block %d: accepted evidence does not show two different signed commitments of one node for one round and scheduler", b))
+					}
+				}
+			} else if stored && !evAccepted[storeKey] {
+				violate(fmt.Sprintf("block %d: a rejected evidence transaction left its evidence hash behind", b))
+			}
+		}
+		blocks = append(blocks, fmt.Sprintf("mkEB (mkAB %d %s %s) %s", H, epoch, coqout.List(vcs), coqout.List(evTs)))
+		obsEv = append(obsEv, coqout.List(evCodes))
 		hashes[post.LastBlock.Header.Round] = in.id(post.LastBlock.Header.EncodedHash())
 		if len(bRounds)+len(eRounds) == 2 {
 			// the block emitted in BeginBlock is only visible as the parent of the final one
@@ -767,7 +996,12 @@ func runAppHistory(seed uint64, nblocks int) (res appResult) {
 	for _, k := range rk {
 		rs = append(rs, fmt.Sprintf("(%d, %d)", k, roots[k]))
 	}
-	res.term = fmt.Sprintf("((mkRP %d %d%%Z 32 %s %s, (%d, %d), %s), %s)", w.strag, w.timeout, coqout.List(hs), coqout.List(rs), round0, root0, coqout.List(blocks), coqout.List(obs))
+	var pairs []string
+	for i := range obs {
+		pairs = append(pairs, fmt.Sprintf("(%s, %s)", obs[i], obsEv[i]))
+	}
+	res.term = fmt.Sprintf("((mkRP %d %d%%Z 32 %s %s, (%s, %d), (%d, %d), %s), %s)", w.strag, w.timeout, coqout.List(hs), coqout.List(rs),
+		coqout.Bool(w.slashAmt > 0), appMaxEvidenceAge, round0, root0, coqout.List(blocks), coqout.List(pairs))
 	return res
 }
 
